@@ -22,7 +22,7 @@ TODAY = (2024, 6, 1)
 STATUS = {"OPEN_TODO": "o", "CLOSED_TODO": "x", "CANCELED_TODO": "~", "BLOCKED_TODO": "<", "PARENT_TODO": ">", "BASIC": "-"}
 
 BODY_WORDS = ["foo", "Foo", "FOO", "bar", "a_b", "aXb", "100%", "50", "path\\to", "it's", "e.g.", "snake_case", "done", "a-b", "x9",
-              "Bar", "(p)", "#tag"]
+              "Bar", "(p)", "#tag", "'foo'", '"Bar"', "'foo"]
 TAGS = {"#": ["home", "work", "a1", "bob"], "@": ["home", "work", "bob"], "%": ["bob", "x9", "home", "work"],
         "+": ["proj_x", "projXx", "foo", "home", "work", "bob"]}   # the same names under every tag kind
 PROPS = [("due", ["2024-05-01", "2024-06-01", "2024-06-15", "2023-12-31", "soon", "2024-13-01"]),
@@ -256,6 +256,11 @@ GROUPED = [
                                         [_af(kinds={"o"}), _af(kinds={"x"})]])]),
     ("#home (#work)", [_af(areas={"home"}, ors=[[_af(areas={"work"})]])]),
     ("+foo | o (x (@home))", [_af(projects={"foo"}), _af(kinds={"o"}, ors=[[_af(kinds={"x"}, ors=[[_af(contexts={"home"})]])]])]),
+    # quoted text whose first / last inner character is the OTHER quote: every character between the delimiters is text
+    ("\"'foo'\"", [_af(descs={("'foo'", None, False)})]),
+    ("!\"'foo'\"", [_af(descs={("'foo'", None, True)})]),
+    ("'\"Bar\"'", [_af(descs={('"Bar"', None, False)})]),
+    ("\"'foo\" o", [_af(kinds={"o"}, descs={("'foo", None, False)})]),
 ]
 TEXT_AST = {}      # query text -> the structure the text denotes (for queries whose structure the generator knows)
 
